@@ -40,13 +40,19 @@ def main():
         try:
             shutil.copytree(os.path.join(REPO, "valida"), os.path.join(tmp, "valida"))
             shutil.copytree(os.path.join(REPO, "tests"), os.path.join(tmp, "tests"))
-            path = os.path.join(tmp, m["file"])
-            src = open(path).read()
-            if src.count(m["old"]) != 1:
-                rows.append((m["name"], "PATCH-FAILED", f"{src.count(m['old'])} matches", {}))
-                print(m["name"], "PATCH-FAILED", src.count(m["old"]))
+            edits = m.get("edits") or [(m["file"], m["old"], m["new"])]
+            bad = False
+            for f, o, n in edits:
+                path = os.path.join(tmp, f)
+                src = open(path).read()
+                if src.count(o) != 1:
+                    rows.append((m["name"], "PATCH-FAILED", f"{src.count(o)} matches", {}))
+                    print(m["name"], "PATCH-FAILED", src.count(o), flush=True)
+                    bad = True
+                    break
+                open(path, "w").write(src.replace(o, n))
+            if bad:
                 continue
-            open(path, "w").write(src.replace(m["old"], m["new"]))
             label = "?"
             if not a.no_pytest:
                 r = subprocess.run([sys.executable, "-B", "-m", "pytest", "-q", "-x", "-p", "no:cacheprovider",
